@@ -114,6 +114,8 @@ type ontHdr struct {
 	signSet  string // which set the signers were drawn from
 	desc     map[string]interface{}
 	h        *otypes.Header
+	nKeys    int
+	nSigs    int
 }
 
 type ontWorld struct {
@@ -211,7 +213,38 @@ func ontEpisode(t *testing.T, r *kit.Run, ep int, maxN int, steps int) {
 				kinds = append(kinds, k)
 			}
 		}
-		switch rng.Intn(8) {
+		reshape, keepSigs := false, -1
+		var pad []string
+		switch rng.Intn(10) {
+		case 8:
+			// enough genuine members LISTED as bookkeepers, but only 0 / 1 / need-1 signatures carried
+			hd.shape = "listed-but-not-signing"
+			k := need + rng.Intn(n-need+1)
+			rp(ontsynth.Valid, k)
+			reshape = true
+			keepSigs = []int{0, 1, need - 1}[rng.Intn(3)]
+			if keepSigs < 0 {
+				keepSigs = 0
+			}
+			if keepSigs >= k && k > 0 {
+				keepSigs = k - 1
+			}
+		case 9:
+			// fewer than a third sign; the signature list is padded beyond the bookkeeper list
+			hd.shape = "surplus-signatures"
+			k := []int{1, need - 1, 0}[rng.Intn(3)]
+			if k < 0 {
+				k = 0
+			}
+			if k > n {
+				k = n
+			}
+			rp(ontsynth.Valid, k)
+			reshape = true
+			total := []int{need, need + 1, n, n + 2}[rng.Intn(4)]
+			for len(pad) < total-k || len(pad) == 0 {
+				pad = append(pad, ontsynth.PadKinds[rng.Intn(len(ontsynth.PadKinds))])
+			}
 		case 0:
 			hd.shape = "exactly-one-third"
 			rp(ontsynth.Valid, need)
@@ -258,6 +291,9 @@ func ontEpisode(t *testing.T, r *kit.Run, ep int, maxN int, steps int) {
 		hd.kinds = kinds
 		es := ontsynth.Entries(rng, hd.hash[:], members, kinds)
 		h.Bookkeepers, h.SigData = ontsynth.Split(es)
+		if reshape {
+			h.Bookkeepers, h.SigData = ontsynth.Reshape(rng, hd.hash[:], h.Bookkeepers, h.SigData, -1, keepSigs, pad)
+		}
 		if rng.Intn(5) == 0 {
 			rng.Shuffle(len(h.SigData), func(i, j int) { h.SigData[i], h.SigData[j] = h.SigData[j], h.SigData[i] })
 		}
@@ -267,8 +303,9 @@ func ontEpisode(t *testing.T, r *kit.Run, ep int, maxN int, steps int) {
 		for _, b := range es {
 			bk = append(bk, b.Key.PubHex())
 		}
+		hd.nKeys, hd.nSigs = len(h.Bookkeepers), len(h.SigData)
 		hd.desc = map[string]interface{}{"height": height, "hash": kit.Hex(hd.hash[:]), "shape": hd.shape, "entry_kinds": kindsString(kinds), "signers_drawn_from": hd.signSet,
-			"bookkeepers": bk, "announces_new_peer_set": hd.newPeers != nil, "raw_header_hex": kit.Hex(hd.raw)}
+			"bookkeepers": bk, "n_bookkeepers": len(h.Bookkeepers), "n_signatures": len(h.SigData), "signatures_kept": keepSigs, "signature_padding": pad, "announces_new_peer_set": hd.newPeers != nil, "raw_header_hex": kit.Hex(hd.raw)}
 		return hd
 	}
 
@@ -331,7 +368,7 @@ func ontEpisode(t *testing.T, r *kit.Run, ep int, maxN int, steps int) {
 			if hasSet {
 				distinct = ontsynth.DistinctValid(h.hash[:], w.epochs[kh], bks, sigs)
 			}
-			r.Distinct("ont", h.shape, fmt.Sprint(h.kinds), nset, hasSet, h.newPeers != nil, len(hs), isStored, h.signSet[:min(5, len(h.signSet))])
+			r.Distinct("ont", h.shape, fmt.Sprint(h.kinds), h.nKeys, h.nSigs, nset, hasSet, h.newPeers != nil, len(hs), isStored, h.signSet[:min(5, len(h.signSet))])
 			r.Count("ont_shape_"+h.shape, 1)
 			if !isStored {
 				r.Count("ont_headers_refused", 1)
@@ -352,6 +389,11 @@ func ontEpisode(t *testing.T, r *kit.Run, ep int, maxN int, steps int) {
 				return
 			case 3*distinct < nset:
 				key := "ont:header-stored-below-one-third"
+				if h.nSigs < h.nKeys {
+					key = "ont:header-unsigned-bookkeeper-counted"
+				} else if h.nSigs > h.nKeys {
+					key = "ont:header-surplus-signature-counted"
+				}
 				for _, kd := range h.kinds {
 					if kd == ontsynth.DupSameSig || kd == ontsynth.DupFreshSig {
 						key = "ont:header-duplicate-signer-counted"
@@ -661,7 +703,7 @@ func neoEpisode(t *testing.T, r *kit.Run, ep int, maxN int, steps int) {
 func TestC31(t *testing.T) {
 	r := kit.Start(t, "C31", "exploration")
 	defer r.Finish()
-	r.Rule("ont: episodes = genesis peer set of N members, then headers at heights {above top, inside the known range, on/after key heights, at/below the lowest key height}, 1/4 announcing a new peer set, signer lists of shapes {exactly ceil(N/3), more, just below, below+repeats, below+foreign, below+invalid, all, random kind vectors}, signers drawn from the applicable or from another recorded set, 1-3 headers per call; neo: episodes = committee (n,m) then headers of shapes {honest change, below m, one key repeated, below+foreign/bad, not higher, no change, other committee's script, same keys 1-of-n script, random}, 1-2 per call; distinct = (router, shape, kind vector, set size, outcome)")
+	r.Rule("ont: episodes = genesis peer set of N members, then headers at heights {above top, inside the known range, on/after key heights, at/below the lowest key height}, 1/4 announcing a new peer set, signer lists of shapes {exactly ceil(N/3), more, just below, below+repeats, below+foreign, below+invalid, all, bookkeepers listed but not signing (0/1/need-1 signatures), signature list padded beyond the bookkeeper list, random kind vectors}, signers drawn from the applicable or from another recorded set, 1-3 headers per call; neo: episodes = committee (n,m) then headers of shapes {honest change, below m, one key repeated, below+foreign/bad, not higher, no change, other committee's script, same keys 1-of-n script, random}, 1-2 per call; distinct = (router, shape, kind vector, set size, outcome)")
 	r.Assume("ont: 'at least one third' is read as 3*d >= N where d = distinct members of the applicable set (recorded at the greatest key height strictly below the header) that are listed as bookkeepers and for which some listed signature verifies (ontology-crypto); N = number of distinct member ids of that set")
 	r.Assume("ont: a header counts as accepted when it is readable by hash from the contract's storage after the call and was not before; only 'accepted => enough signers' and 'recorded peer set => announced by an accepted header' are asserted")
 	r.Assume("neo: a change of the tracked (index, next-consensus) record must equal (index, next-consensus) of a submitted header with index > tracked, witness script hash == tracked next-consensus and >= m distinct committee members with a valid signature (m = the tracked script's threshold); honest headers refused by poly are not violations")
@@ -700,6 +742,8 @@ func TestC31(t *testing.T) {
 	r.Require("ont_exactly_one_third_stored", r.N(20, 300))
 	r.Require("ont_peer_sets_recorded", r.N(40, 600))
 	r.Require("ont_shape_below-plus-repeats", r.N(50, 500))
+	r.Require("ont_shape_listed-but-not-signing", r.N(50, 500))
+	r.Require("ont_shape_surplus-signatures", r.N(50, 500))
 	r.Require("neo_changed", r.N(30, 400))
 	r.Require("neo_calls_refused", r.N(50, 800))
 	r.Require("neo_shape_one-key-repeated", r.N(10, 100))
